@@ -340,7 +340,7 @@ func (w *c04world) handler(rw http.ResponseWriter, q *http.Request, rec *rig.Ori
 		rw.WriteHeader(599)
 		return
 	}
-	rec.Note = id
+	rec.SetNote(id)
 	for _, l := range c.H.CC {
 		rw.Header().Add("Cache-Control", l)
 	}
